@@ -28,6 +28,7 @@ Suppressions:
 
 import ast
 from collections.abc import Callable
+from pathlib import Path
 from typing import Any, Protocol, TypeVar
 
 from src.core.base import BaseLintContext
@@ -270,6 +271,28 @@ def resolve_file_path(context: BaseLintContext) -> str:
         File path string, or "unknown" if not available
     """
     return str(context.file_path) if context.file_path else "unknown"
+
+
+def project_relative_path(context: BaseLintContext) -> str:
+    """Resolve the file path relative to the project root.
+
+    Ignore patterns describe locations inside the project, so directories above the project
+    root must not take part in the match. Falls back to the path as given.
+
+    Args:
+        context: Lint context
+
+    Returns:
+        Project-relative file path string when the project root is known
+    """
+    path = resolve_file_path(context)
+    root = get_metadata(context).get("_project_root")
+    if root is None or not context.file_path:
+        return path
+    try:
+        return str(Path(context.file_path).resolve().relative_to(Path(root).resolve()))
+    except (ValueError, OSError):
+        return path
 
 
 def is_ignored_path(file_path: str, ignore_patterns: list[str]) -> bool:
